@@ -338,3 +338,4 @@ PROP = C01()
 
 PROP.rule += (" Strata added while closing seeded changes (DESIGN section 10): "
               'comma/tab spacers; an earlier write of the same object that shares the option objects and/or is followed by in-place edits of the samples; LASFiles obtained by reading (any mnemonic_case) instead of built from scratch; reads into a LASFile that has read another file before.')
+PROP.rule += ' Round 8: magnitudes up to 1e120 (tokens wider than data_width when not wrapping).'
